@@ -1608,3 +1608,204 @@ Example later_macro_rescan :
   cpp_output (run_cpp [] "m.c" [] ["#define A B" ++ nl; "#define B 7" ++ nl; "A B" ++ nl])
     = Some ("7 7" ++ nl).
 Proof. split; vm_compute; reflexivity. Qed.
+
+(** * The capped driver [replace_all_c] (what the line processor really calls)
+
+    [replace_rounds_c] abandons the rounds as soon as a round has produced a text longer than
+    64 KiB.  It agrees with [replace_rounds] -- the function every theorem above is about --
+    whenever no round that would be followed by another one leaves the cap. *)
+
+(** every text after which the uncapped driver goes on to another round is within the cap
+    (defined by the recursion of [replace_rounds]) *)
+Fixpoint rounds_within_cap (n : nat) (ms : list macro) (orig res : string) : Prop :=
+  match n with
+  | O => True
+  | S k =>
+      let '(res', c) := apply_all ms orig res false in
+      if c then within_cap res' = true /\ rounds_within_cap k ms res' res' else True
+  end.
+
+(** the same as a boolean, for [vm_compute] on concrete tables ([if], not [&&]: [vm_compute] is
+    call-by-value and must not run the rounds beyond the cap) *)
+Fixpoint rounds_within_capb (n : nat) (ms : list macro) (orig res : string) : bool :=
+  match n with
+  | O => true
+  | S k =>
+      let '(res', c) := apply_all ms orig res false in
+      if c then (if within_cap res' then rounds_within_capb k ms res' res' else false) else true
+  end.
+
+Lemma rounds_within_capb_spec : forall n ms orig res,
+  rounds_within_capb n ms orig res = true -> rounds_within_cap n ms orig res.
+Proof.
+  induction n as [|k IH]; intros ms orig res Hb; cbn [rounds_within_capb rounds_within_cap] in *;
+    [exact I|].
+  destruct (apply_all ms orig res false) as [res' c]. destruct c; [|exact I].
+  destruct (within_cap res'); [|discriminate Hb].
+  split; [reflexivity | apply IH; exact Hb].
+Qed.
+
+Lemma replace_rounds_c_S : forall k ms orig res,
+  replace_rounds_c (S k) ms orig res =
+  if snd (apply_all ms orig res false)
+  then (if within_cap (fst (apply_all ms orig res false))
+        then replace_rounds_c k ms (fst (apply_all ms orig res false)) (fst (apply_all ms orig res false))
+        else fst (apply_all ms orig res false))
+  else fst (apply_all ms orig res false).
+Proof.
+  intros k ms orig res. cbn [replace_rounds_c].
+  destruct (apply_all ms orig res false) as [res' c]. reflexivity.
+Qed.
+
+(** the bridge *)
+Theorem replace_rounds_c_small : forall n ms orig res,
+  rounds_within_cap n ms orig res ->
+  replace_rounds_c n ms orig res = replace_rounds n ms orig res.
+Proof.
+  induction n as [|k IH]; intros ms orig res Hcap; [reflexivity|].
+  cbn [rounds_within_cap replace_rounds_c replace_rounds] in *.
+  destruct (apply_all ms orig res false) as [res' c]. destruct c; [|reflexivity].
+  destruct Hcap as [Hcap Hrest]. rewrite Hcap. apply IH. exact Hrest.
+Qed.
+Print Assumptions replace_rounds_c_small.
+
+Theorem replace_all_c_small : forall ms s,
+  rounds_within_cap 64 ms s s -> replace_all_c ms s = replace_all ms s.
+Proof. intros ms s Hcap. unfold replace_all_c, replace_all. apply replace_rounds_c_small. exact Hcap. Qed.
+Print Assumptions replace_all_c_small.
+
+(** ** sufficient conditions that need no length computation: the cap can only cut the rounds
+    short after a round whose result would have been rewritten again; when a round ends on a text
+    that no macro matches, both drivers stop there, whatever its length *)
+
+Lemma apply_all_no_match : forall ms orig res c,
+  (forall m, In m ms -> macro_matches m orig = false) ->
+  apply_all ms orig res c = (res, c).
+Proof.
+  induction ms as [|m r IH]; intros orig res c Hno; [reflexivity|].
+  rewrite apply_all_cons, (Hno m (or_introl eq_refl)).
+  apply IH. intros m' Hin. apply Hno. right. exact Hin.
+Qed.
+
+Lemma replace_rounds_c_no_match : forall k ms s,
+  (forall m, In m ms -> macro_matches m s = false) -> replace_rounds_c k ms s s = s.
+Proof.
+  intros [|k] ms s Hno; [reflexivity|].
+  rewrite replace_rounds_c_S, (apply_all_no_match ms s s false Hno). reflexivity.
+Qed.
+
+Lemma replace_rounds_no_match : forall k ms s,
+  (forall m, In m ms -> macro_matches m s = false) -> replace_rounds k ms s s = s.
+Proof.
+  intros [|k] ms s Hno; [reflexivity|].
+  rewrite replace_rounds_S, (apply_all_no_match ms s s false Hno). reflexivity.
+Qed.
+
+(** no macro matches the text: nothing happens *)
+Theorem replace_all_c_no_change : forall ms s,
+  (forall m, In m ms -> macro_matches m s = false) -> replace_all_c ms s = s.
+Proof. intros ms s Hno. apply replace_rounds_c_no_match. exact Hno. Qed.
+Print Assumptions replace_all_c_no_change.
+
+(** the first round ends on a text [r] that no macro matches: the result is [r], and it is also
+    the result of the uncapped driver -- NO hypothesis on the length of [r] is needed *)
+Theorem replace_all_c_one_round : forall ms s r,
+  fst (apply_all ms s s false) = r ->
+  (forall m, In m ms -> macro_matches m r = false) ->
+  replace_all_c ms s = r /\ replace_all ms s = r.
+Proof.
+  intros ms s r Hr Hno. unfold replace_all_c, replace_all.
+  rewrite (replace_rounds_c_S 63), (replace_rounds_S 63), Hr.
+  rewrite (replace_rounds_c_no_match 63 ms r Hno), (replace_rounds_no_match 63 ms r Hno).
+  split.
+  - destruct (snd (apply_all ms s s false)); [destruct (within_cap r)|]; reflexivity.
+  - destruct (snd (apply_all ms s s false)); reflexivity.
+Qed.
+Print Assumptions replace_all_c_one_round.
+
+(** object-like macros with closed values (T6): one round, so the cap never matters *)
+Lemma replace_all_c_obj : forall ms s, names_wordy ms -> values_closed ms ->
+  replace_all_c (map mk_obj ms) s = tsubst (subst_many ms) s.
+Proof.
+  intros ms s Hw Hc.
+  pose proof (apply_all_fst ms [] s false Hw Hc) as H1.
+  change (tsubst (subst_many []) s) with (tsubst (fun t => t) s) in H1.
+  rewrite tsubst_id in H1. cbn [app] in H1.
+  apply (replace_all_c_one_round (map mk_obj ms) s _ H1).
+  intros m Hin. apply in_map_iff in Hin. destruct Hin as [nv [<- Hin]].
+  rewrite macro_matches_obj.
+  - apply subst_many_closed; assumption.
+  - destruct nv as [n v]. exact (Hw n v Hin).
+Qed.
+
+Theorem replace_all_c_independent : forall (ms : list (string * string)) s,
+  NoDup (map fst ms) -> (forall n v, In (n, v) ms -> wordy n) ->
+  (forall n v m, In (n, v) ms -> In m (map fst ms) -> existsb (String.eqb m) (tokens v) = false) ->
+  replace_all_c (map (fun nv => (fst nv, MObj (snd nv))) ms) s =
+  String.concat "" (map (fun t => match find (fun nv => String.eqb (fst nv) t) ms with
+                                  | Some nv => snd nv | None => t end) (tokens s)).
+Proof.
+  intros ms s _ Hw Hc. exact (replace_all_c_obj ms s Hw Hc).
+Qed.
+Print Assumptions replace_all_c_independent.
+
+Theorem replace_all_c_single : forall name value s, wordy name ->
+  existsb (String.eqb name) (tokens value) = false ->
+  replace_all_c [(name, MObj value)] s = subst_tokens name value s.
+Proof.
+  intros name value s Hn Hv.
+  rewrite <- (replace_all_single name value s Hn Hv).
+  change [(name, MObj value)] with (map mk_obj [(name, value)]).
+  rewrite replace_all_c_obj, replace_all_obj; [reflexivity| | | |].
+  - intros n v [E|[]]. inversion E; subst. exact Hn.
+  - intros n v m [E|[]] [Em|[]]. inversion E; subst. cbn [fst]. exact Hv.
+  - intros n v [E|[]]. inversion E; subst. exact Hn.
+  - intros n v m [E|[]] [Em|[]]. inversion E; subst. cbn [fst]. exact Hv.
+Qed.
+Print Assumptions replace_all_c_single.
+
+(** chains of object-like macros: several rounds, so the intermediate texts must fit *)
+Theorem replace_all_c_chain : forall (ms : list (string * string)) (rank : string -> nat) s,
+  NoDup (map fst ms) -> (forall n v, In (n, v) ms -> wordy n) ->
+  (forall n v t, In (n, v) ms -> In t (tokens v) -> In t (map fst ms) -> rank t < rank n) ->
+  (forall n, In n (map fst ms) -> rank n < 64) ->
+  rounds_within_cap 64 (map (fun nv => (fst nv, MObj (snd nv))) ms) s s ->
+  replace_all_c (map (fun nv => (fst nv, MObj (snd nv))) ms) s = tsubst (expand_tok 64 ms) s.
+Proof.
+  intros ms rank s Hnd Hw Hrank Hb Hcap.
+  rewrite (replace_all_c_small _ s Hcap). exact (replace_all_chain ms rank s Hnd Hw Hrank Hb).
+Qed.
+Print Assumptions replace_all_c_chain.
+
+(** ** the guard really bites: a macro whose value mentions its own name twice doubles the text
+    at every round (2^(k+1)-1 characters after round k).  Round 15 leaves 65535 characters, still
+    within the cap; round 16 leaves 131071 and the capped driver stops there, where the uncapped
+    one would go on for 48 more rounds (2^65-1 characters). *)
+Definition doubling : list macro := [("A", MObj "A A")].
+
+Example replace_all_c_cap_bites :
+  N.of_nat (String.length (replace_all_c doubling "A")) = 131071%N /\
+  within_cap (replace_all_c doubling "A") = false /\
+  replace_all_c doubling "A" = replace_rounds_c 17 doubling "A" "A" /\
+  replace_all_c doubling "A" = replace_rounds 16 doubling "A" "A" /\
+  N.of_nat (String.length (replace_rounds 15 doubling "A" "A")) = 65535%N /\
+  N.of_nat (String.length (replace_rounds 17 doubling "A" "A")) = 262143%N.
+Proof.
+  split; [vm_compute; reflexivity|].
+  split; [vm_compute; reflexivity|].
+  split; [apply String.eqb_eq; vm_compute; reflexivity|].
+  split; [apply String.eqb_eq; vm_compute; reflexivity|].
+  split; vm_compute; reflexivity.
+Qed.
+
+(** so here [rounds_within_cap] fails and the two drivers differ after the same number of rounds *)
+Example replace_all_c_cap_differs :
+  rounds_within_capb 64 doubling "A" "A" = false /\
+  replace_rounds_c 17 doubling "A" "A" <> replace_rounds 17 doubling "A" "A".
+Proof.
+  split; [vm_compute; reflexivity|].
+  assert (Hlen : N.of_nat (String.length (replace_rounds_c 17 doubling "A" "A")) <>
+                 N.of_nat (String.length (replace_rounds 17 doubling "A" "A")))
+    by (vm_compute; discriminate).
+  intros H. apply Hlen. rewrite H. reflexivity.
+Qed.
